@@ -270,6 +270,8 @@ where
         let other: &GGSWCompressed<&[u8]> = &other.to_ref();
 
         assert_eq!(res.rank(), other.rank());
+        assert_eq!(res.dsize(), other.dsize());
+        assert!(res.dnum() <= other.dnum());
         let dnum: usize = res.dnum().into();
         let rank: usize = res.rank().into();
 
